@@ -901,7 +901,7 @@ theorem setupState_hist (c : Cfg α) (s : St α) (a : EvalAns α) (eq : List (Op
   unfold setupState
   simp only
   refine ⟨_, rfl, ?_, ?_⟩
-  · rw [(growthRate_time _ _ _ _).2.1]; rfl
+  · rw [(growthRate_time _ _ _ _).2.1, (nucleation_time _ _ _ _ _ _).2.1]; split <;> rfl
   · apply growthRate_ph c _ a _ (fun yp => ∃ pc ∈ c.phases, NucOK pc.rmin yp)
     · intro yp ea eb ⟨pc, hpc, h⟩; exact ⟨pc, hpc, h⟩
     · exact nucleation_ok _ _ _ _ _ _
@@ -2205,8 +2205,7 @@ theorem setupState_eq (c : Cfg α) (s : St α) (a : EvalAns α) (eq : List (Opti
     setupState c s a eq =
       let sr := setupPre c s a eq
       let s1 : St α := { sr.1 with hist := sr.2 :: s.hist.tail }
-      let y1 := nucleation c s1 (s.cur c.nElem).time (s1.ph.map (fun ps => ps.grid.psd)) a
-                  { s.cur c.nElem with comp := c.x0, temp := a.T }
+      let y1 := nucleation c s1 (s.cur c.nElem).time (s1.ph.map (fun ps => ps.grid.psd)) a sr.2
       let s2 : St α := { s1 with ph := s1.ph.map (fun ps => { ps with growth := zerosL (ps.grid.bins + 1) }) }
       { (growthRate c s2 a y1).1 with hist := (growthRate c s2 a y1).2 :: s.hist.tail } := rfl
 
@@ -2247,7 +2246,7 @@ theorem setupState_ready (c : Cfg α) (s : St α) (a : EvalAns α) (eq : List (O
     obtain ⟨q, hq', rfl⟩ := hps
     exact hQ q hq'
   set y1 := nucleation c { sr.1 with hist := sr.2 :: s.hist.tail } (s.cur c.nElem).time
-    (sr.1.ph.map (fun ps => ps.grid.psd)) a { s.cur c.nElem with comp := c.x0, temp := a.T } with hy1
+    (sr.1.ph.map (fun ps => ps.grid.psd)) a sr.2 with hy1
   have hy1l : y1.ph.length = s2.ph.length := by
     simp [hy1, nucleation, zip3_length, dtPhases, hc, ha.1, hl, hl2]
   have hgl := growthRate_length c s2 a y1 (by rw [hl2]; exact hc) (by rw [hl2]; exact ha) hy1l
@@ -2282,16 +2281,37 @@ theorem setupState_rowBal (c : Cfg α) (s : St α) (a : EvalAns α) (eq : List (
   have hcur' : (List.headD s.hist (Slice.zero c.nElem)).ph.length = s.ph.length := hcur
   have hy0l : y0.ph.length = s.ph.length := hcur
   set y1 := nucleation c { sr.1 with hist := sr.2 :: s.hist.tail } (s.cur c.nElem).time
-    (sr.1.ph.map (fun ps => ps.grid.psd)) a y0 with hy1
+    (sr.1.ph.map (fun ps => ps.grid.psd)) a sr.2 with hy1
+  -- the row with the equilibrium compositions written in has the balance fields and the composition of the plain row
+  have hsr2 : sr.2.ph.map balFields = y0.ph.map balFields ∧ sr.2.comp = c.x0 ∧ sr.2.ph.length = y0.ph.length := by
+    rw [hsr]
+    unfold setupPre
+    simp only
+    split
+    · refine ⟨?_, rfl, by rw [List.length_mapIdx]⟩
+      apply List.ext_getElem?
+      intro i
+      simp only [List.getElem?_map, List.getElem?_mapIdx]
+      cases (s.cur c.nElem).ph[i]? <;> simp [balFields]
+    · refine ⟨?_, rfl, by rw [List.length_mapIdx]⟩
+      apply List.ext_getElem?
+      intro i
+      simp only [List.getElem?_map, List.getElem?_mapIdx]
+      cases (s.cur c.nElem).ph[i]? with
+      | none => simp
+      | some yp =>
+        simp only [Option.map_some, Option.some.injEq]
+        split <;> rfl
   have hy1l : y1.ph.length = s.ph.length := by
     simp [hy1, nucleation, zip3_length, dtPhases, hc, ha.1, hl]
-  have hb1 : y1.ph.map balFields = y0.ph.map balFields :=
-    nucleation_bal c _ _ _ a y0 (by rw [hy0l]; exact hc) (by rw [hy0l]; exact ha.1) (by rw [hy0l]; exact hl)
-      (by rw [hy0l]; simp [hl])
+  have hb1 : y1.ph.map balFields = y0.ph.map balFields := by
+    rw [← hsr2.1]
+    exact nucleation_bal c _ _ _ a sr.2 (by rw [hsr2.2.2, hy0l]; exact hc) (by rw [hsr2.2.2, hy0l]; exact ha.1)
+      (by rw [hsr2.2.2, hy0l]; exact hl) (by rw [hsr2.2.2, hy0l]; simp [hl])
   have hb2 : (growthRate c s2 a y1).2.ph.map balFields = y0.ph.map balFields := by
     rw [growthRate_bal c s2 a y1 (by rw [hy1l]; exact ha.1) (by rw [hy1l]; exact hl2)]; exact hb1
   have hcomp : (growthRate c s2 a y1).2.comp = c.x0 := by
-    rw [(growthRate_time c s2 a y1).2.2]; rfl
+    rw [(growthRate_time c s2 a y1).2.2, hy1, (nucleation_time _ _ _ _ _ _).2.2]; exact hsr2.2.1
   have hzero : ∀ yp ∈ (growthRate c s2 a y1).2.ph, yp.volFrac = 0 ∧ ∀ e, yp.fconc.getD e 0 = 0 := by
     intro yp hyp
     have : balFields yp ∈ y0.ph.map balFields := by rw [← hb2]; exact List.mem_map_of_mem hyp
@@ -2616,11 +2636,11 @@ theorem reset_forgets (c : Cfg α) (sA sB : St α) (a : EvalAns α) (eq : List (
   have hpsd : pA.1.ph.map (fun ps => ps.grid.psd) = pB.1.ph.map (fun ps => ps.grid.psd) :=
     map_strip_congr _ stripG (fun _ => rfl) _ _ hph
   have hy : nucleation c { pA.1 with hist := pA.2 :: (resetState c sA).hist.tail } ((resetState c sA).cur c.nElem).time
-        (pA.1.ph.map (fun ps => ps.grid.psd)) a { (resetState c sA).cur c.nElem with comp := c.x0, temp := a.T } =
+        (pA.1.ph.map (fun ps => ps.grid.psd)) a pA.2 =
       nucleation c { pB.1 with hist := pB.2 :: (resetState c sB).hist.tail } ((resetState c sB).cur c.nElem).time
-        (pB.1.ph.map (fun ps => ps.grid.psd)) a { (resetState c sB).cur c.nElem with comp := c.x0, temp := a.T } := by
-    rw [hpsd, hcurEq]
-    exact nucleation_congr c _ _ _ _ a _ (by show pA.2 :: _ = pB.2 :: _; rw [hrow, hH]) hph
+        (pB.1.ph.map (fun ps => ps.grid.psd)) a pB.2 := by
+    rw [hpsd, hcurEq, hrow]
+    exact nucleation_congr c _ _ _ _ a _ (by show pB.2 :: _ = pB.2 :: _; rw [hH]) hph
   -- and the states handed to the growth-rate call are equal
   have hs2 : ({ pA.1 with
                   ph := pA.1.ph.map (fun ps => { ps with growth := zerosL (ps.grid.bins + 1) }),
@@ -3070,11 +3090,11 @@ theorem reset_forgets_multi_setup (c : Cfg α) (sA sB : St α) (a : EvalAns α) 
   have hpsd : pA.1.ph.map (fun ps => ps.grid.psd) = pB.1.ph.map (fun ps => ps.grid.psd) :=
     map_strip_congr _ stripG (fun _ => rfl) _ _ hph
   have hy : nucleation c { pA.1 with hist := pA.2 :: (resetState c sA).hist.tail } ((resetState c sA).cur c.nElem).time
-        (pA.1.ph.map (fun ps => ps.grid.psd)) a { (resetState c sA).cur c.nElem with comp := c.x0, temp := a.T } =
+        (pA.1.ph.map (fun ps => ps.grid.psd)) a pA.2 =
       nucleation c { pB.1 with hist := pB.2 :: (resetState c sB).hist.tail } ((resetState c sB).cur c.nElem).time
-        (pB.1.ph.map (fun ps => ps.grid.psd)) a { (resetState c sB).cur c.nElem with comp := c.x0, temp := a.T } := by
-    rw [hpsd, hcurEq]
-    exact nucleation_congr c _ _ _ _ a _ (by show pA.2 :: _ = pB.2 :: _; rw [hrow, hH]) hph
+        (pB.1.ph.map (fun ps => ps.grid.psd)) a pB.2 := by
+    rw [hpsd, hcurEq, hrow]
+    exact nucleation_congr c _ _ _ _ a _ (by show pB.2 :: _ = pB.2 :: _; rw [hH]) hph
   have hs2 : ({ pA.1 with
                   ph := pA.1.ph.map (fun ps => { ps with growth := zerosL (ps.grid.bins + 1) }),
                   hist := pA.2 :: (resetState c sA).hist.tail } : St α) =
